@@ -227,6 +227,34 @@ func runC11(c *core.Ctx) {
 		c.Failf("minmax.error", "GetMin/MaxValue on a non-empty sketch: %v %v", e1, e2)
 		return
 	}
+	if r.P(0.3) {
+		// a copy goes its own way (values of both signs, reweighting): the original must keep answering from what it absorbed
+		c.Guard("Copy", func() {
+			cp := s.Copy()
+			// a magnitude the sketch already holds: stays within the stores' span budget on either side
+			posMag, negMag := 0.0, 0.0
+			for _, it := range sorted {
+				if it.V > m.Min {
+					posMag = it.V
+				} else if it.V < -m.Min && negMag == 0 {
+					negMag = -it.V
+				}
+			}
+			if posMag == 0 {
+				posMag = negMag // that side is empty: any single index fits
+			}
+			if negMag == 0 {
+				negMag = posMag
+			}
+			if posMag > 0 {
+				cp.I().AddWithCount(posMag, 4)
+				cp.I().AddWithCount(-negMag, 4)
+			}
+			cp.I().AddWithCount(0, 2)
+			cp.I().Reweight(2)
+		})
+		c.Count("copy_went_its_own_way", 1)
+	}
 	// q grid
 	qs := []float64{0, 1, 0.5, math.Nextafter(1, 0), math.Nextafter(0, 1)}
 	for i := 0; i < 10; i++ {
